@@ -253,7 +253,7 @@ pub fn run(ctx: &Ctx) -> i32 {
         check_case(ctx, st, &combos[i], Settings::new(CI | if i % 5 == 0 { VERB } else { 0 }));
     });
     let n = if ctx.thorough { 200_000 } else { 12_000 };
-    let names = ["case", "mixed", "ab", "graph", "classes"];
+    let names = ["case", "mixed", "ab", "graph", "classes", "sigma"];
     let alphabets: Vec<(String, Vec<String>)> = names.iter().map(|a| (a.to_string(), gen::alphabet(a))).collect();
     par_for(&ctx.run, n, |i, st| {
         let mut rng = Rng::new(seed, 0x40_0000 + i as u64);
